@@ -3,11 +3,14 @@
    quantifies over ALL histories [ops] (message interleavings, time advances, cleanup ticks with any
    map-iteration order) through run4 / run6 = fold_left of the Model's step from the initial state.
 
-   Guard of the DHCPv4 _partial theorems: [guard4 ops] = no relayed DISCOVER/REQUEST carries an
-   option-82 circuit-id (lookupLeaseByCircuitID is never consulted); the clauses are refuted
-   without it (known finding K02a). *)
+   Guard of the DHCPv4 _partial theorems: [quiet4 c ops] = no DISCOVER/REQUEST of the history takes
+   its "existing lease" from the circuit-ID index (decidable by running the Model; ghost marker 0201
+   is never raised).  Two static guards imply it (C02_v4_quiet_of_guard4, C02_v4_quiet_of_owned):
+   [guard4 ops] = no relayed DISCOVER/REQUEST carries an option-82 circuit-id, and
+   [cid_owned ops] = every circuit-id of the history is used by one MAC only (relayed option-82
+   traffic allowed).  Without a guard the clauses are refuted (known finding K02a). *)
 From Coq Require Import NArith List.
-From Verif Require Import Model.Dhcp4 Model.Dhcp6 Proofs.Dhcp4Proofs Proofs.Dhcp6Proofs.
+From Verif Require Import Model.Dhcp4 Model.Dhcp6 Proofs.Dhcp4Proofs Proofs.Dhcp4Circuit Proofs.Dhcp6Proofs.
 Import ListNotations.
 Local Open Scope N_scope.
 
@@ -19,11 +22,28 @@ Theorem C02_v4_a_refuted : exists c ops o s' r mk v c',
 Proof. exact v4_a_refuted. Qed.
 Print Assumptions C02_v4_a_refuted.
 
+(* the guards *)
+Theorem C02_v4_quiet_of_guard4 : forall c ops, guard4 ops = true -> quiet4 c ops = true.
+Proof. exact quiet_of_guard. Qed.
+Print Assumptions C02_v4_quiet_of_guard4.
+
+Theorem C02_v4_quiet_of_owned : forall c ops, cid_owned ops = true -> quiet4 c ops = true.
+Proof. exact quiet_of_owned. Qed.
+Print Assumptions C02_v4_quiet_of_owned.
+
+(* with circuit-ids never shared between MACs no stale lease object stays reachable through the
+   circuit-ID index: every index entry is the live lease-table entry of its MAC (fix c878197) *)
+Theorem C02_v4_index_live_owned : forall c ops k o,
+  cid_owned ops = true -> alookup k (cidx (run4 c ops)) = Some o ->
+  l_cid o = k /\ alookup (l_mac o) (leases (run4 c ops)) = Some o.
+Proof. exact v4_index_live_owned. Qed.
+Print Assumptions C02_v4_index_live_owned.
+
 Theorem C02_v4_a_partial : forall c ops o s' r mk v c',
-  guard4 (ops ++ [o]) = true ->
+  quiet4 c (ops ++ [o]) = true ->
   step4 c (run4 c ops) o = (s', r, mk) -> reply_val r = Some v -> c' <> op_client o ->
   ~ holds (run4 c ops) c' v.
-Proof. exact v4_a_partial. Qed.
+Proof. exact v4_a_quiet. Qed.
 Print Assumptions C02_v4_a_partial.
 
 (* (b) at most one (unexpired) binding per address *)
@@ -34,10 +54,10 @@ Proof. exact v4_b_refuted. Qed.
 Print Assumptions C02_v4_b_refuted.
 
 Theorem C02_v4_b_partial : forall c ops m1 m2 l1 l2,
-  guard4 ops = true ->
+  quiet4 c ops = true ->
   alookup m1 (leases (run4 c ops)) = Some l1 -> alookup m2 (leases (run4 c ops)) = Some l2 ->
   l_ip l1 = l_ip l2 -> m1 = m2.
-Proof. exact v4_b_partial. Qed.
+Proof. exact v4_b_quiet. Qed.
 Print Assumptions C02_v4_b_partial.
 
 (* (c) every OFFER/ACK value is inside the pool and not the network, broadcast or gateway address *)
@@ -64,26 +84,35 @@ Proof. exact v4_e_refuted. Qed.
 Print Assumptions C02_v4_e_refuted.
 
 Theorem C02_v4_e_partial : forall c ops1 ops2 m l o s' r mk,
-  guard4 (ops1 ++ Decline m :: ops2 ++ [o]) = true ->
+  quiet4 c (ops1 ++ Decline m :: ops2 ++ [o]) = true ->
   alookup (m_mac m) (leases (run4 c ops1)) = Some l -> m_req m = Some (l_ip l) ->
   step4 c (run4 c (ops1 ++ Decline m :: ops2)) o = (s', r, mk) ->
   reply_val r <> Some (l_ip l).
-Proof. exact v4_e_partial. Qed.
+Proof. exact v4_e_quiet. Qed.
 Print Assumptions C02_v4_e_partial.
 
 (* (f) a released address is back on the free list (or was declined); after a cleanup tick no
    expired lease is left in the table *)
 Theorem C02_v4_f_release_partial : forall c ops m l,
-  guard4 ops = true -> alookup (m_mac m) (leases (run4 c ops)) = Some l ->
+  quiet4 c ops = true -> alookup (m_mac m) (leases (run4 c ops)) = Some l ->
   let s' := step4s c (run4 c ops) (Release m) in
   alookup (m_mac m) (leases s') = None /\ (In (l_ip l) (avail s') \/ In (l_ip l) (unavail s')).
-Proof. exact v4_f_release_partial. Qed.
+Proof. exact v4_f_release_quiet. Qed.
 Print Assumptions C02_v4_f_release_partial.
 
 Theorem C02_v4_f_expiry_cleanup : forall c ops ord m l,
   alookup m (leases (step4s c (run4 c ops) (Cleanup ord))) = Some l -> now (run4 c ops) < l_exp l.
 Proof. exact v4_f_expiry. Qed.
 Print Assumptions C02_v4_f_expiry_cleanup.
+
+(* (f) expiry, second half: the address of a lease that has run out is, after the cleanup tick
+   (any map order), back on the free list (or was declined) and the lease is gone *)
+Theorem C02_v4_f_expiry_frees_partial : forall c ops ord m l,
+  quiet4 c ops = true -> alookup m (leases (run4 c ops)) = Some l -> l_exp l <= now (run4 c ops) ->
+  let s' := step4s c (run4 c ops) (Cleanup ord) in
+  alookup m (leases s') = None /\ (In (l_ip l) (avail s') \/ In (l_ip l) (unavail s')).
+Proof. exact v4_f_expiry_frees. Qed.
+Print Assumptions C02_v4_f_expiry_frees_partial.
 
 (* non-vacuity: a guarded history with relay, option 82, a decline, expiry and a cleanup tick, and a
    reachable state in which a client holds a lease *)
@@ -93,6 +122,19 @@ Example C02_v4_guard_satisfiable :
   exists l, alookup 1 (leases (run4 w_cfg [Discover (w_m 1 None false 0); Request (w_m 1 (Some 167773953) false 1)])) = Some l
             /\ l_ip l = 167773953.
 Proof. exact v4_guard_satisfiable. Qed.
+
+(* non-vacuity of cid_owned: relayed option-82 traffic of two clients, a renewal from another
+   circuit; guard4 is false on it.  quiet4 is strictly weaker than cid_owned (a circuit-id changing
+   hands after a RELEASE), and fails on the K02a history *)
+Example C02_v4_owned_satisfiable :
+  cid_owned w_owned = true /\ guard4 w_owned = false /\
+  (exists l, alookup 2 (cidx (run4 w_cfg (firstn 5 w_owned))) = Some l /\ l_mac l = 2) /\
+  alookup 1 (cidx (run4 w_cfg (firstn 5 w_owned))) = None.
+Proof. exact owned_satisfiable. Qed.
+Example C02_v4_quiet_weaker :
+  cid_owned w_swap = false /\ quiet4 w_cfg w_swap = true /\
+  quiet4 w_cfg (w_ops ++ [Discover (w_m 2 None true 1)]) = false.
+Proof. exact quiet_weaker. Qed.
 
 (* ------------------------------------------------------------------ DHCPv6 *)
 
@@ -135,6 +177,27 @@ Theorem C02_v6_f_release : forall c ops d l a,
 Proof. exact v6_f_release. Qed.
 Print Assumptions C02_v6_f_release.
 
+
+(* (d) for delegated prefixes *)
+Theorem C02_v6_d_renew_same_prefix : forall c ops d l p na,
+  wf6 c -> alookup d (leases6 (run6 c ops)) = Some l -> l6_pfx l = Some p ->
+  step6 c (run6 c ops) (Rebind d na true) = step6 c (run6 c ops) (Renew d na true) /\
+  exists s' rna mk, step6 c (run6 c ops) (Renew d na true) = (s', R6Reply rna (IaVal p) false, mk).
+Proof. exact v6_d_pfx. Qed.
+Print Assumptions C02_v6_d_renew_same_prefix.
+
+(* (f) release for delegated prefixes *)
+Theorem C02_v6_f_release_prefix : forall c ops d l p,
+  wf6 c -> alookup d (leases6 (run6 c ops)) = Some l -> l6_pfx l = Some p ->
+  In p (pavail (step6s c (run6 c ops) (Release6 d))) /\ alookup d (leases6 (step6s c (run6 c ops) (Release6 d))) = None.
+Proof. exact v6_f_release_pfx. Qed.
+Print Assumptions C02_v6_f_release_prefix.
+
+(* Information-Request is stateless: no value, no change of the binding state *)
+Theorem C02_v6_inforeq_stateless : forall c s d, step6 c s (InfoReq d) = (s, R6Info, []).
+Proof. exact v6_inforeq_stateless. Qed.
+Print Assumptions C02_v6_inforeq_stateless.
+
 (* (e) Decline is Release: the declined address is handed to the next client *)
 Theorem C02_v6_e_refuted : exists c ops d l a o s' r mk,
   alookup d (leases6 (run6 c ops)) = Some l /\ l6_addr l = Some a /\
@@ -164,6 +227,6 @@ Print Assumptions C02_v6_e_partial.
 
 Example C02_v6_hyps_satisfiable :
   wf6 w6 /\ (exists l, alookup 1 (leases6 (run6 w6 [Solicit 1 false true true; Request6 1 true true true; Advance6 50])) = Some l
-                       /\ l6_addr l = Some (a_base w6 + 1)) /\
+                       /\ l6_addr l = Some (a_base w6 + 1) /\ l6_pfx l = Some (p_base w6)) /\
   now6 (run6 w6 [Solicit 1 false true true; Request6 1 true true true; Advance6 50]) <= c_valid w6.
 Proof. exact v6_hyps_satisfiable. Qed.
